@@ -12,7 +12,8 @@ the callback-carrying builtins of object/list.go and builtins/builtins.go) as it
   with the run's, or a detached one) —, plain script calls `f()`, `defer` statements (a
   DEFERRED script closure is kept by the function frame that executed the statement and runs
   when that frame is left — by a return, by an error, or because the halt test stopped it),
-  and `go`/`spawn`;
+  `import` of a source module (the module's TOP-LEVEL code runs as a nested `eval` on the same
+  VM, under the context the importing `eval` was handed: `Wrap.imp`), and `go`/`spawn`;
 * a *thread* is one goroutine running script code on its own VM (the main thread on the VM
   that `Run`/`Call` started, every spawned thread on a clone): the VM's `halt` flag, whether
   `start()` armed a context watcher for it, what it is doing, and the stack of `callFunction`
@@ -80,6 +81,23 @@ inductive Wrap where
       the frame beneath so far (`none` = a result, `some e` = the error it is left with).
       Never written in a program shape: only `leaveT` pushes it. -/
   | dfr (pending : Option Err)
+  /-- not a builtin: `import m` / `from m import x` of a SOURCE module that has not been
+      imported on this VM yet (`op.Import` / `op.FromImport` → `importModule(ctx, name)`): the
+      module's TOP-LEVEL code is evaluated by a nested `vm.eval(ctx)` on the same VM, and `ctx`
+      is the context the importing `eval` itself runs under — so the body's polls return that
+      context's error, its blocking primitives select on that context's `Done`, and whatever it
+      starts with `go`/`spawn` inherits that context (tied:
+      `Ties.import_body_runs_under_importers_ctx_tie`; the variant that hands the body another
+      context is `stepImp .detached`).  An error of the module body is returned by the importing `eval` unchanged
+      (`if err != nil { return err }`, the module is then not cached).  Not a function frame:
+      `importModule` does not go through `callFunction`, the frame holds no deferred closures
+      (`defer` directly in a module's top-level code is a compile error: `wfIn`).  A module
+      that has been imported before is served from `vm.modules`: no frame, just `compute`.
+      Before the body runs the importer compiles the module WITH THE SAME CONTEXT: the local
+      importer's `parser.Parse(ctx, …)` fails with `ctx.Err()` when the context has already
+      fired, so an `import` reached after the cancellation raises the context's error and no
+      module body starts any more, on any VM (`stepT`; tied: `Ties.import_parse_observes_ctx_tie`). -/
+  | imp
   deriving DecidableEq, Repr, Inhabited
 
 /-- program shapes (continuation style) -/
@@ -118,6 +136,7 @@ def wrapErr : Wrap → Err → Option Err
   | .host _ _, e => some e
   | .fn, e => some e              -- `if err := vm.callObject(…); err != nil { return err }`
   | .dfr _, e => some e           -- (a deferred call's frame is left through `returnT`)
+  | .imp, e => some e             -- `if err := vm.eval(ctx); err != nil { return nil, err }`
   | _, _ => some .msg
 
 inductive St where
@@ -293,6 +312,11 @@ def stepT (c : Bool) (t : Thread) : Thread × Option (Nat × Prog) :=
     if t.halt then (haltedT t, none) else ({ t with st := .blocked pr k }, none)
   | .run (.cb w body k) =>
     if t.halt then (haltedT t, none)
+    -- `import` of a module that has not been imported yet goes through the importer first:
+    -- `vm.importer.Import(ctx, name)` parses the source with `parser.Parse(ctx, …)`, which
+    -- returns `ctx.Err()` before the first statement once the context has fired — the import
+    -- fails with the context's own error, NO instruction of the module body executes
+    else if w == .imp && c then ({ t with st := .raising .ctx }, none)
     else ({ t with st := .run body, frames := (w, k, []) :: t.frames }, none)
   | .run (.spawn id body k) =>
     if t.halt then (haltedT t, none)
@@ -424,12 +448,14 @@ def noSwallow : Prog → Bool
   | .defer_ d k => noSwallow d && noSwallow k
 
 /-- outside spawned functions: nothing that replaces the context's error by a copy of its
-    text (every callback-carrying builtin, `thread.wait`) and nothing that swallows it -/
+    text (every callback-carrying builtin, `thread.wait`) and nothing that swallows it; the
+    top-level code of imported modules is part of the main code -/
 def noLossy : Prog → Bool
   | .done => true
   | .compute k => noLossy k
   | .spin => true
   | .block p k => primEffect p == some .ctx && noLossy k
+  | .cb .imp body k => noLossy body && noLossy k   -- an import hands the error on unchanged
   | .cb _ _ _ => false
   | .spawn _ _ k => noLossy k
   | .defer_ _ _ => false           -- (only inside a function frame, i.e. inside a `.cb`)
@@ -497,7 +523,7 @@ def noDetachedAnywhere : Prog → Bool
 
 /-- `inFn` = the code is the body of a function (a callback, a script call, a deferred
     closure): a `defer` statement is only accepted there (the compiler rejects it at the top
-    level; the top-level function of a spawned thread or of `vm.Call` is not modelled as a
+    level of the main code and of a module — the body of `.imp` is not a function body; the top-level function of a spawned thread or of `vm.Call` is not modelled as a
     frame, so a `defer` directly in it is outside the model — the generator wraps it in a
     script call).  `.dfr` is not a program construct. -/
 def wfIn (inFn : Bool) : Prog → Bool
@@ -508,7 +534,7 @@ def wfIn (inFn : Bool) : Prog → Bool
   | .cb w body k => (match w with
       | .host .detached _ => computeOnly body
       | .dfr _ => false
-      | _ => true) && wfIn true body && wfIn inFn k
+      | _ => true) && wfIn (w != .imp) body && wfIn inFn k
   | .spawn _ body k => wfIn false body && wfIn inFn k
   | .defer_ d k => inFn && wfIn true d && wfIn inFn k
 
@@ -527,6 +553,101 @@ def setPop (b : Bool) : Prog → Prog
       | w => w) (setPop b body) (setPop b k)
   | .spawn id body k => .spawn id (setPop b body) (setPop b k)
   | .defer_ d k => .defer_ (setPop b d) (setPop b k)
+
+/-! ### the context the top-level code of an imported module runs under
+
+`importModule(ctx, name)` evaluates the module body with `vm.eval(ctx)` — the SAME context the
+importing `eval` runs under.  In the model that is: the code inside an `.imp` frame is stepped
+with the same signal `c` ("the run's context has fired") as the code around it, and a thread
+it spawns is a thread of the system like any other (`apply` steps every thread with
+`s.cancelled`).  Three things of the module body depend on it: the error its polls return, its
+blocking primitives (they `select` on the `Done` channel of THAT context), and the context the
+functions it starts with `go`/`spawn` inherit (clone VMs have no watcher: that context is all
+that ever stops them). -/
+
+/-- is the thread executing (inside) the top-level code of a module that is being imported? -/
+def inImport : List Frame → Bool
+  | [] => false
+  | (w, _, _) :: fs => w == .imp || inImport fs
+
+/-- what the code running on top of the frames `fs` sees of the run's context (`c` = it has
+    fired) when `importModule` hands the module body a context of kind `cc`.  `.follows` is the
+    code as it is (`vm.eval(ctx)`).  `.detached` is the CONTRAST — a body evaluated under
+    `context.WithoutCancel(ctx)` / a background context: inside an import the context the
+    primitives select on never fires. -/
+def seenBy (cc : Cc) (c : Bool) (fs : List Frame) : Bool :=
+  match cc with
+  | .follows => c
+  | .detached => c && !inImport fs
+
+/-- one step of a thread under an `importModule` that hands the module body a context of kind
+    `cc`; `stepImp .follows` IS `stepT` (`Props.stepImp_follows`) -/
+def stepImp (cc : Cc) (c : Bool) (t : Thread) : Thread × Option (Nat × Prog) :=
+  stepT (seenBy cc c t.frames) t
+
+/-- `n` applications of a step function -/
+def iterWith (f : Thread → Thread) : Nat → Thread → Thread
+  | 0, t => t
+  | n + 1, t => iterWith f n (f t)
+
+/-- own steps of a thread after the run's context has fired, under `stepImp cc` -/
+def iterImp (cc : Cc) (n : Nat) (t : Thread) : Thread :=
+  iterWith (fun t => (stepImp cc true t).1) n t
+
+/-- own steps of a thread whose inherited context NEVER fires (CONTRAST: a function started
+    with `go`/`spawn` by a module body that was handed a detached context inherits it; its VM
+    is a clone without a watcher) -/
+def iterNever (n : Nat) (t : Thread) : Thread :=
+  iterWith (fun t => (stepT false t).1) n t
+
+/-- the verdicts of the contrast, computed like `stops` (exact: `Props.stopsImp_iff`,
+    `Props.stopsNever_iff`) -/
+def stopsImp (cc : Cc) (t : Thread) : Bool := (iterImp cc (potT t) (fireT t)).st.isFin
+def stopsNever (t : Thread) : Bool := (iterNever (potT t) t).st.isFin
+
+/-- ids of the `go`/`spawn` sites whose function inherits the context a module body was
+    handed: the sites inside the top-level code of an imported module (`inImp`), at any depth
+    of callbacks and script calls, and the sites inside THOSE functions.  (Shapes are in
+    continuation style: the body of a function stands where the function is called, so
+    "inside" is lexical.) -/
+def inheritsImportCtx (inImp : Bool) : Prog → List Nat
+  | .done => []
+  | .compute k => inheritsImportCtx inImp k
+  | .spin => []
+  | .block _ k => inheritsImportCtx inImp k
+  | .cb w body k => inheritsImportCtx (inImp || w == .imp) body ++ inheritsImportCtx inImp k
+  | .spawn id body k =>
+    (if inImp then [id] else []) ++ inheritsImportCtx inImp body ++ inheritsImportCtx inImp k
+  | .defer_ d k => inheritsImportCtx inImp d ++ inheritsImportCtx inImp k
+
+/-- does the shape import a module at all (in the main code or in a spawned function)? -/
+def hasImport : Prog → Bool
+  | .done => false
+  | .compute k => hasImport k
+  | .spin => false
+  | .block _ k => hasImport k
+  | .cb w body k => w == .imp || hasImport body || hasImport k
+  | .spawn _ body k => hasImport body || hasImport k
+  | .defer_ d k => hasImport d || hasImport k
+
+/-! what the model assumes about the text of `importModule` and of its callers in `eval`
+(hand-written from the pinned tree; regenerated by the extractor, compared in `Ties.lean`) -/
+
+/-- `importModule(ctx context.Context, name string)` runs the module body with `vm.eval(ctx)` -/
+def expectImportFirstParam : String := "ctx context.Context"
+def expectImportEvalArgs : List String := ["ctx"]
+/-- every call of `vm.importModule` in `eval` (`op.Import`, twice in `op.FromImport`) passes
+    the context `eval` was handed -/
+def expectImportCallCtxArgs : List String := ["ctx", "ctx", "ctx"]
+/-- before that, `importModule` asks the importer with the same context:
+    `vm.importer.Import(ctx, name)`; the local importer (`LocalImporter.Import(ctx context.Context,
+    …)`) hands it to `parseAndCompile(ctx, …)`, which parses with `parser.Parse(ctx, …)`; the
+    statement loop of `Parser.Parse` starts every round with `select { case <-ctx.Done(): return
+    nil, ctx.Err() … }` -/
+def expectImporterCallArgs : List String := ["ctx", "name"]
+def expectLocalImporterCtxChain : List String :=
+  ["Import(ctx context.Context)", "parseAndCompile(ctx)", "parseAndCompile(ctx context.Context)", "parser.Parse(ctx)"]
+def expectParserCtxCheck : List String := ["<-ctx.Done()", "return nil, ctx.Err()"]
 
 /-! ### evaluations on a VM that has been used before (`Run`, `Call`, `RunCode` again)
 
